@@ -235,7 +235,7 @@ def compare(it, op, a, b, node):
         except Exception:  # noqa
             pass
     if isinstance(a, Seq) and isinstance(b, Seq) and opn in ("eq", "ne") and a.kind in ("tuple", "list") \
-            and all(is_pyconst(x) for x in b.items) and not all(is_pyconst(x) for x in a.items):
+            and not (all(is_pyconst(x) for x in a.items) and all(is_pyconst(x) for x in b.items)):
         # e.g. dims.shape == (1, 3)
         t = None
         for x, y in zip(a.items, b.items):
@@ -243,6 +243,8 @@ def compare(it, op, a, b, node):
             t = c if t is None else mk("and", t, c)
         if len(a.items) != len(b.items):
             return K(opn == "ne")
+        if all(to_term(x) == to_term(y) for x, y in zip(a.items, b.items)):
+            return K(opn == "eq")
         return Val(t if opn == "eq" else mk("not", t))
     r = arith(it, opn, a, b, node)
     return r
@@ -559,6 +561,9 @@ def frame_select(it, f, names, node):
 
 def val_getitem(it, v, idx, node):
     """indexing a 1-D element-wise value"""
+    if isinstance(idx, Seq) and idx.kind == "tuple" and all(
+            (isinstance(x, SliceV) and x.is_full()) or (is_pyconst(x) and pyval(x) is None) for x in idx.items):
+        return v  # v[:, np.newaxis] and friends: same element-wise value
     if isinstance(idx, SliceV):
         if idx.is_full():
             return v
@@ -907,6 +912,10 @@ def setitem(it, obj, idx, value, node, fr):
         tgt = node.targets[0] if isinstance(node, ast.Assign) else getattr(node, "target", None)
         if isinstance(tgt, ast.Subscript) and isinstance(tgt.value, ast.Name):
             name = tgt.value.id
+            if isinstance(idx, Seq) and len(idx.items) == 1 and getattr(idx.items[0], "mask", None) is not None:
+                idx = idx.items[0].mask  # x[np.where(mask)] = v  ==  x[mask] = v
+            elif getattr(idx, "mask", None) is not None and getattr(idx, "pos_of", None) is not None:
+                idx = idx.mask
             if isinstance(idx, SliceV) and idx.is_full():
                 new = Val(to_term(value), space=obj.space)
             elif getattr(idx, "scalar_pos", False) or is_pyconst(idx) or getattr(idx, "is_scalar_index", False):
